@@ -195,26 +195,28 @@ def fitField (rec : Rec) (d : StructDef) (vs : List (String × Val)) (f : Field)
     | .error _ => true
   else true
 
-def fitStruct (rec : Rec) (a : String → Val → Bool) (d : StructDef) (vs : List (String × Val)) : Bool :=
-  d.fields.all (fun f => fitField rec d vs f && admMember a vs f)
+/-- `sup`: the struct definitions the object may be built from (all of them: `fun _ => true`) -/
+def fitStruct (sup : StructDef → Bool) (rec : Rec) (a : String → Val → Bool) (d : StructDef) (vs : List (String × Val)) : Bool :=
+  sup d && d.fields.all (fun f => fitField rec d vs f && admMember a vs f)
 
-def fitStep (S : Schema) (rec : Rec) (a : String → Val → Bool) (ty : String) (v : Val) : Bool :=
+def fitStep (S : Schema) (sup : StructDef → Bool) (rec : Rec) (a : String → Val → Bool) (ty : String) (v : Val) : Bool :=
   match S.find ty with
   | some (.struct d) =>
     match v with
     | .struct vty vs =>
       if d.abstract then
         match S.find vty with
-        | some (.struct dc) => if dc.abstract then a vty v else fitStruct rec a dc vs
+        | some (.struct dc) => if dc.abstract then a vty v else fitStruct sup rec a dc vs
         | _ => a vty v
-      else fitStruct rec a d vs
+      else fitStruct sup rec a d vs
     | _ => true
   | _ => true
 
-def fitN (S : Schema) (T : String → Bytes → Bytes) : Nat → String → Val → Bool
+def fitN (S : Schema) (T : String → Bytes → Bytes) (sup : StructDef → Bool) : Nat → String → Val → Bool
   | 0 => fun _ _ => true
-  | n + 1 => fitStep S (recN S T n) (fitN S T n)
+  | n + 1 => fitStep S sup (recN S T n) (fitN S T sup n)
 
-def fit (S : Schema) (T : String → Bytes → Bytes) (ty : String) (v : Val) : Bool := fitN S T (defaultFuel S) ty v
+def fit (S : Schema) (T : String → Bytes → Bytes) (ty : String) (v : Val) : Bool :=
+  fitN S T (fun _ => true) (defaultFuel S) ty v
 
 end SymbolVerif.Codec
